@@ -3,9 +3,22 @@
 // Contracts for package hashing (compiled only with -tags=verif; checked by /verif/bin/govc). Properties C09, C01, C02.
 package hashing
 
+// C09: every hashing operation starts from an empty stream: GetHasher hands out a newly allocated wrapper around a hash
+// state that was created for it and has absorbed nothing (no recycled state). The wrapper's stream is, by definition, what
+// its state has absorbed.
+//@ func newXXH3Hasher() (h)
+//@   allocates h
+//@   ensures [fresh_state] h != nil && typeIs(h, "*hashing.xxh3Hasher") && has(pristine, ref(asPtr(h, "*hashing.xxh3Hasher").hasher))
+//@   ensures [empty] stream[ref(h)] == ""
+//@   ghostset stream[ref(h)] := ite(has(pristine, ref(asPtr(h, "*hashing.xxh3Hasher").hasher)), "", stream[ref(h)])
+
+//@ func newSHA256Hasher() (h)
+//@   allocates h
+//@   ensures [fresh_state] h != nil && typeIs(h, "*hashing.sha256Hasher") && has(pristine, ref(asPtr(h, "*hashing.sha256Hasher").hasher))
+//@   ensures [empty] stream[ref(h)] == ""
+//@   ghostset stream[ref(h)] := ite(has(pristine, ref(asPtr(h, "*hashing.sha256Hasher").hasher)), "", stream[ref(h)])
+
 //@ func GetHasher() (h)
-//@   trusted
-//@   pure
 //@   allocates h
 //@   ensures [empty] h != nil && stream[ref(h)] == ""
 //@   ensures [implementation] typeIs(h, "*hashing.xxh3Hasher") || typeIs(h, "*hashing.sha256Hasher")
